@@ -138,34 +138,41 @@ def frames_signature(err, how):
     return fr[0]
 
 
-# functions that only drive the phases; the first frame below them names the phase the time is spent in
-DRIVER_FRAMES = {
-    "main", "CPPParser::parse_file", "CPPParser::parse_expr", "CPPParser::parse_type", "parse_cpp", "parse_const_expr",
-    "parse_type", "cppyyparse", "cppyylex", "CPPPreprocessor::get_next_token", "CPPPreprocessor::get_next_token0",
-    "CPPPreprocessor::internal_get_next_token", "CPPPreprocessor::process_directive", "CPPPreprocessor::preprocess_file",
-    "CPPPreprocessor::parse_expr", "CPPPreprocessor::skip_false_if_block", "InterrogateBuilder::build",
-    "InterrogateBuilder::read_command_file", "InterrogateBuilder::do_command", "CPPPreprocessor::get_next_char",
-    "CPPPreprocessor::get", "CPPPreprocessor::skip_whitespace", "CPPPreprocessor::peek",
-}
-
-
-def hang_signature(err):
-    """where the time goes: the phase function (first frame below the drivers, seen from main), or, when the trace
-    is so deep that the sanitizer truncated it (256 frames), the functions that make up the recursion."""
-    fr = project_frames(err)      # innermost first
-    if not fr:
+def hang_signature(errs):
+    """Where a non-terminating run spends its time, from several stack samples (each sample is the stack ASan
+    prints when a run of the same input is aborted after a different amount of CPU time).  A single sample is not
+    a stable signature: a loop alternates between its callees.  The signature is the innermost function that is
+    on the stack in *every* sample (longest common prefix of the call chains, seen from main); when a trace is so
+    deep that the sanitizer truncated it (256 frames) the classes of the recursing functions are used instead."""
+    if isinstance(errs, str):
+        errs = [errs]
+    chains, deep = [], []
+    for err in errs:
+        fr = project_frames(err)      # innermost first
+        if not fr:
+            continue
+        nframes = len(re.findall(r"^\s*#\d+ 0x", fatal_stack(err), re.M))
+        if nframes >= 200 or "main" not in fr:
+            cyc = _cycle(fr)
+            if cyc:
+                deep.extend(cyc)
+            continue
+        chain = []
+        for f in reversed(fr):
+            if not chain or chain[-1] != f:
+                chain.append(f)
+        chains.append(chain)
+    if deep:
+        return "recursion-in=" + "+".join(_classes(deep)[:4])
+    if not chains:
         return "?"
-    nframes = len(re.findall(r"^\s*#\d+ 0x", fatal_stack(err), re.M))
-    if nframes >= 200 or "main" not in fr:
-        # which of the mutually recursive functions is on top when the abort arrives varies from run to run
-        # (is_equal / is_less / operator== ...); their classes do not
-        cyc = _cycle(fr)
-        if cyc:
-            return "recursion-in=" + "+".join(_classes(cyc)[:4])
-    for f in reversed(fr):
-        if f not in DRIVER_FRAMES:
-            return f
-    return fr[0]
+    prefix = chains[0]
+    for c in chains[1:]:
+        n = 0
+        while n < len(prefix) and n < len(c) and prefix[n] == c[n]:
+            n += 1
+        prefix = prefix[:n]
+    return prefix[-1] if prefix else "?"
 
 
 def ubsan_fatal_kind(err):
@@ -309,6 +316,7 @@ def command_for(b, inp, d):
 
 
 CPU_LIMIT_SMALL, CPU_LIMIT_BIG = 10, 10     # seconds of CPU time; the confirming run gets twice that (normal: 0.03 s)
+HANG_SAMPLE_AT = (0.3, 0.5, 0.7, 0.9, 1.1, 1.3, 1.6, 1.9)   # CPU seconds at which a confirmed hang is sampled (re-runs) for its signature
 WALL_BACKUP = 25                            # x cpu limit: wall-clock backstop (blocked child / overloaded host)
 
 
@@ -416,11 +424,19 @@ def exec_input(b, inp, d, res=None):
     argv, outs = command_for(b, inp, d)
     cpu = _cpu_limit_for(inp)
     r = run_cpu(argv, cpu, d)
+    samples = []
     if r.timed_out and "WALL-BACKSTOP" not in r.err:
         # double-confirmed watchdog: only a second run that burns twice the CPU time is a hang
         r = run_cpu(argv, cpu * 2, d)
         if not r.timed_out and res is not None:
             res.count("timeouts_not_confirmed")
+        if r.timed_out and "WALL-BACKSTOP" not in r.err:
+            # the signature comes from three cheap stack samples at fixed points of the run (independent of the
+            # watchdog budget, so that a replay with a shorter watchdog gives the same key)
+            for at in HANG_SAMPLE_AT:
+                r2 = run_cpu(argv, at, d)
+                if r2.timed_out and "WALL-BACKSTOP" not in r2.err:
+                    samples.append(r2.err)
     if "WALL-BACKSTOP" in r.err:
         if res is not None:
             res.count("wall_backstop")
@@ -440,13 +456,21 @@ def exec_input(b, inp, d, res=None):
         if nw:
             res.count("diagnostics_warning", nw)
     how = classify(r)
+    if how is not None and how.endswith("stack-overflow") and not project_frames(r.err):
+        # ASan sometimes cannot unwind from the guard page ("<empty stack>"); where the overflow hits depends on
+        # the layout of the run, so another run usually gives the trace
+        for _ in range(3):
+            r2 = run_cpu(argv, cpu, d)
+            if classify(r2) == how and project_frames(r2.err):
+                r = r2
+                break
     if how == "sanitizer-artefact":
         if res is not None:
             res.count("sanitizer_artefact_vptr_fd_exhaustion")
         return Outcome(None, "sanitizer-artefact", r)
     if how is not None:
         if how == "hang":
-            key = "hang:" + hang_signature(r.err)
+            key = "hang:" + hang_signature(samples or [r.err])
         else:
             key = how + ":" + frames_signature(r.err, how)
         if res is not None:
@@ -575,17 +599,19 @@ def enum_inputs(tier):
         out.append(make_input("pfE" if i % 2 else "ig", b"int a = " + w + b";\nstruct Q { int q = " + w + b"; " + w +
                               b" };\n", "enum_tok_ctx", "tok%d" % i, ig=(i // 2) % len(IG_OPTS)))
         out.append(make_input("pf", b"#if " + w + b"\n#endif\n#define M " + w + b"\nM\n", "enum_tok_if", "tok%d" % i))
-    depths = (64, 1000) if tier != "thorough" else (16, 64, 100, 1000)
+    depths = (16, 64, 1000) if tier != "thorough" else (16, 64, 100, 1000)
     rng = random.Random("C15-nest")
     for k in mutgen.NEST_KINDS:
         for n in depths:
-            if k == "base_chain":
-                # the class-trait walkers are roughly cubic in the length of an inheritance chain (10 min at 1000,
-                # 3 s at 100); that is slow but terminating, and where the watchdog would catch it differs from
-                # run to run, so it is observed only up to a depth that finishes
+            if k in ("base_chain", "arrays", "macro_chain"):
+                # three polynomial blow-ups: the class-trait walkers are ~cubic in the length of an inheritance
+                # chain (10 min at 1000), CPPType::new_type compares nested array types recursively (cubic, minutes
+                # for int x[1]...[1] x1000) and expand_manifests re-expands a chain of object-like macros with a
+                # copied ignore set (super-quadratic).  They are slow but they terminate, and where a watchdog
+                # catches them differs from run to run, so they are observed only up to a depth that finishes.
                 n = min(n, 100)
             data = mutgen.gen_nesting(rng, k, n)
-            tg = ("pf", "pfE", "ig", "inc:pf") if tier == "thorough" else (("pf", "ig") if n == 1000 else ("pfE", "inc:pf"))
+            tg = ("pf", "pfE", "ig", "inc:pf") if tier == "thorough" else (("pf", "ig") if n != 64 else ("pfE", "inc:pf"))
             for t in tg:
                 out.append(make_input(t, data, "nest_%s_%d" % (k, n), "nest", ig=1 if n == 1000 else 0))
     for i, nf in enumerate(mutgen.NFILES):
@@ -721,37 +747,67 @@ def run_fuzz_case(ctx, case):
     wdir = os.path.join(d, "w")
     for x in (cdir, adir, wdir):
         os.makedirs(x, exist_ok=True)
+    # libFuzzer stops at the first crash, also while it loads the corpus: start only from inputs on which the real
+    # binaries survive (the crashing ones are judged by the mutation part of the check anyway)
+    d0 = os.path.join(d, "filter")
+    os.makedirs(d0, exist_ok=True)
+
+    def survives(data):
+        return all(exec_input(b, make_input(t, data, "fuzzseed", "fuzz"), d0).cls in
+                   ("exit0", "exit0+warn", "error-diag", "error-other") for t in ("pf", "pfE"))
+
+    nseed = 0
     for i, (n, data) in enumerate(mutgen.corpus(b.src)):
-        if len(data) <= 4096:
+        if len(data) <= 4096 and survives(data):
             _write(os.path.join(cdir, "s%03d" % i), data)
+            nseed += 1
     rng = random.Random("C15-fuzzseed:%s" % case["sub"])
-    for i in range(40):   # some mutated starters so that jobs diverge early
+    for i in range(24):   # some mutated starters so that jobs diverge early
         m, s, data = mutgen.gen_source(rng, mutgen.corpus(b.src))
-        _write(os.path.join(cdir, "m%03d" % i), data[:4096])
+        data = data[:4096]
+        if survives(data):
+            _write(os.path.join(cdir, "m%03d" % i), data)
+            nseed += 1
+    res.count("fuzz_seed_files", nseed)
     dic = os.path.join(d, "dict.txt")
     write_fuzz_dict(dic)
-    cmd = [exe, "-runs=%d" % case["runs"], "-seed=%d" % (case["sub"] % (2 ** 31) + 1), "-max_len=4096",
-           "-timeout=20", "-rss_limit_mb=4096", "-dict=" + dic, "-artifact_prefix=" + adir + "/",
-           "-close_fd_mask=3", "-print_final_stats=1", "-detect_leaks=0", "-len_control=50", cdir]
+    # The tool never frees its parse tree, so a long in-process run only measures the allocator: run the job as
+    # rounds of 10000 executions over the same (growing) corpus directory, each in a fresh process, and stop at
+    # the first round that leaves an artifact.
     env = {"VF_PARSER_INC": b.parser_inc, "VF_FUZZ_DIR": wdir,
            "ASAN_OPTIONS": core.SAN_ENV["ASAN_OPTIONS"].replace("abort_on_error=1", "abort_on_error=0").replace("handle_abort=1", "handle_abort=0")}
-    r = core.run(cmd, timeout=case.get("timeout", 900), cwd=wdir, env=env)
-    m = re.search(r"stat::number_of_executed_units:\s*(\d+)", r.err)
-    execs = int(m.group(1)) if m else 0
-    if not m:
-        # a crashing job prints no final stats; take the last progress line
-        mm = re.findall(r"^#(\d+)\s", r.err, re.M)
-        execs = int(mm[-1]) if mm else 0
+    per_round = 10000
+    execs = 0
+    cov = 0
+    rounds = max(1, case["runs"] // per_round)
+    r = None
+    for rd in range(rounds):
+        cmd = [exe, "-runs=%d" % per_round, "-seed=%d" % ((case["sub"] + rd * 7919) % (2 ** 31) + 1), "-max_len=4096",
+               "-timeout=25", "-rss_limit_mb=3072", "-malloc_limit_mb=1024", "-dict=" + dic,
+               "-artifact_prefix=" + adir + "/", "-close_fd_mask=3", "-print_final_stats=1", "-detect_leaks=0",
+               "-len_control=50", "-reload=0", cdir]
+        r = core.run(cmd, timeout=case.get("timeout", 900), cwd=wdir, env=env)
+        m = re.search(r"stat::number_of_executed_units:\s*(\d+)", r.err)
+        if m:
+            execs += int(m.group(1))
+        else:
+            # a crashing round prints no final stats; take the last progress line
+            mm = re.findall(r"^#(\d+)\s", r.err, re.M)
+            execs += int(mm[-1]) if mm else 0
+        mm = re.findall(r"cov: (\d+)", r.err)
+        if mm:
+            cov = max(cov, int(mm[-1]))
+        res.count("fuzz_rounds")
+        if os.listdir(adir) or r.timed_out:
+            break
+        if not m and "libFuzzer" not in r.err and r.rc != 0:
+            raise core.HarnessError("vf_fuzz failed: rc=%s %s" % (r.rc, r.err[-1500:]))
     res.count("fuzz_execs", execs)
     res.count("fuzz_jobs")
-    mm = re.findall(r"cov: (\d+)", r.err)
-    if mm:
-        res.count("fuzz_cov_edges_max_sum", int(mm[-1]))
+    res.count("fuzz_cov_edges_sum", cov)
     arts = sorted(os.listdir(adir))
     if r.timed_out:
         res.inconclusive = "libFuzzer job hit the harness watchdog"
-    elif not m and not arts and "ERROR" not in r.err and r.rc != 0:
-        raise core.HarnessError("vf_fuzz failed: rc=%s %s" % (r.rc, r.err[-1500:]))
     res.features.add("fuzz|libfuzzer|%s" % ("artifact" if arts else "clean"))
     d2 = os.path.join(d, "replay")
     os.makedirs(d2, exist_ok=True)
@@ -834,13 +890,16 @@ def main(chk):
                 "bytes): target in {parse_file, parse_file -E, interrogate -oc/-od/-oh (4 option sets), included file, "
                 ".N file, -D arguments}; distinct = (target, mutator, observed outcome class) triples, outcome class in "
                 "{exit0, exit0+warn, error-diag, error-other, crash:<how>, output-rule}; a violation key is "
-                "<how>:<top in-project frames>")
+                "<how>:<innermost in-project function of the fatal stack | functions/classes of the recursion>")
     chk.assumptions = [
         "the ASan+UBSan (-O1, asserts on) build dies on the same inputs as a user's build, or on more (asserts are on "
         "in the repository's default configuration)",
         "recoverable (arithmetic) UBSan reports are counted, not judged; memory growth is not judged",
-        "a 10 s (<=4 kB) / 20 s watchdog, confirmed by a second run with twice the time, means the tool does not "
-        "terminate in bounded time (normal runs take 30 ms)",
+        "a child that burns 10 s of CPU time, and 20 s again in a confirming run, does not terminate in bounded time "
+        "(normal runs use 0.03 s); CPU time, not wall time, so that load on the host cannot create hangs; "
+        "RLIMIT_NOFILE=1024 as in a login shell",
+        "UBSan's vptr report for std::cerr after the tool ran out of file descriptors is the sanitizer's artefact "
+        "(its memory probe needs a pipe); such runs are counted, not judged",
         "inputs are at most 32 kB; nesting depth at most 1000",
         "libFuzzer artifacts count only if the real asan parse_file dies on them in a fresh process",
     ]
@@ -850,7 +909,7 @@ def main(chk):
     bs = 24
     for i in range(0, len(en), bs):
         cases.append({"id": "enum%d" % (i // bs), "inputs": en[i:i + bs]})
-    nrand = chk.pick(4000, 60000)
+    nrand = chk.pick(4000, 30000)
     bs = chk.pick(25, 100)
     for k in range(nrand // bs):
         cases.append({"id": "r%d" % k, "sub": chk.rng.getrandbits(48), "n": bs})
@@ -859,7 +918,7 @@ def main(chk):
     # big cases first would starve nothing: order is irrelevant for verdicts; shuffle for load balance
     chk.rng.shuffle(cases)
     if not chk.quick():
-        fz = [{"id": "fz%d" % k, "fuzz": True, "sub": chk.rng.getrandbits(31), "runs": 150000} for k in range(32)]
+        fz = [{"id": "fz%d" % k, "fuzz": True, "sub": chk.rng.getrandbits(31), "runs": 30000} for k in range(16)]
         cases = fz + cases
     chk.run_cases(__name__, cases)
     second_phase(chk)
